@@ -104,8 +104,11 @@ CHECKS = {
             "models attain their boundary temperatures and stay between them; the plate-model series vanishes at depth 0 and max "
             "depth (boundary temperatures attained); mass conserving slab (half-space reference): on and below the slab top the "
             "temperature lies between the model's minimum temperature and the background, and equals the minimum temperature on the "
-            "slab top; the McKenzie series of the slab plate model vanishes on both slab surfaces. Not proved: two-sided bounds of "
-            "the truncated series (known finding D15 for kappa*age/max_depth^2 < 1e-3), the heat anomaly above the slab top and the "
+            "slab top; the McKenzie series of the slab plate model vanishes on both slab surfaces; every truncated plate series stays "
+            "within (bottom - top) x the amplitude sum of its terms of [top, bottom] (C20_plate_series_overshoot), for the constant-age "
+            "model at most n*(2/pi)*exp(-pi^2*kappa*age/max_depth^2) (C20_constant_age_overshoot; checked on every constant-age ladder). "
+            "Not proved (false for a truncated series near the ridge, known finding D15 for kappa*age/max_depth^2 < 1e-3): the strict "
+            "envelope of the series; searched: the heat anomaly above the slab top and the "
             "plate reference of the mass-conserving model (searched). Tie: bit-exact correspondence of the cooling models; "
             "oracle: depth and age ladders on the implementation.",
             "proof of envelopes over Reals (erfc laws as premises) + bit-exact correspondence + ladder oracle", "4 C20"),
